@@ -144,8 +144,15 @@ def _grow_contract(ctx, run, f):
     pmin = f.params[1]["name"]
     for b, i in rets:
         ats = atoms.atoms_at(f, i)
-        fits = any(a.rel == ">=" and pmin in a.R.locals for a in ats if a.R is not None) and \
-            any(a.rel == "<=" and a.R is not None and pmin in a.R.locals for a in ats)
+        # `capacity >= min_space` and `capacity - min_space >= offset`, each in either spelling: read every
+        # comparison as big >= small
+        def sides(a):
+            if a.R is None or a.rel not in (">=", ">", "<=", "<"):
+                return None
+            return (a.L, a.R) if a.rel in (">=", ">") else (a.R, a.L)
+        ss = [x for x in (sides(a) for a in ats) if x is not None]
+        fits = any(small.locals == {pmin} and not small.fields and pmin not in big.locals for big, small in ss) and \
+            any(pmin in big.locals and pmin not in small.locals and small.const is None for big, small in ss)
         grown = any(a.rel == "!=" and a.R is not None and a.R.const == 0 and (("_vbi_grow_vector_capacity" in a.L.calls) or
                                                                                  _from(f, a.L, "_vbi_grow_vector_capacity")) for a in ats)
         key = "RF-DOM:_vbi_export_grow_buffer_space:true-means-space:%d" % (len([1 for x in rets if x[1] <= i]))
